@@ -217,6 +217,44 @@ Definition anti_step (s : list val) (pn : list val * list val) : list val * list
 (* defer_tick_lazy: emits what it buffered in the previous tick *)
 Definition defer_step (buf xs : list val) : list val * list val := (buf, xs).
 
+(* ------------------------------------------------------------------ generators (first / limit) *)
+
+Inductive gen : Type := GYield (v : val) | GReturn (v : val) | GContinue | GBreak.
+
+(* state of scan::<lifetime> wrapping Stream::generator's closure *)
+Inductive gst : Type := GInit | GActive (a : val) | GReturned | GDead.
+
+Definition gen_istep (init : val) (f : val -> val -> val * gen) (s : gst) (x : val)
+  : list val * gst :=
+  let go a :=
+    let (a', r) := f a x in
+    match r with
+    | GYield o => ([o], GActive a')
+    | GReturn o => ([o], GReturned)
+    | GContinue => ([], GActive a')
+    | GBreak => ([], GDead)          (* scan closure returns None: DFIR scan drops its state *)
+    end in
+  match s with
+  | GInit => go init
+  | GActive a => go a
+  | GReturned => ([], GDead)
+  | GDead => ([], GDead)
+  end.
+
+(* list-level meaning of a generator: process items until Return / Break *)
+Fixpoint gen_list (f : val -> val -> val * gen) (a : val) (l : list val) : list val :=
+  match l with
+  | [] => []
+  | x :: r =>
+      let (a', g) := f a x in
+      match g with
+      | GYield o => o :: gen_list f a' r
+      | GReturn o => [o]
+      | GContinue => gen_list f a' r
+      | GBreak => []
+      end
+  end.
+
 (* ------------------------------------------------------------------ top-level IR *)
 
 Inductive snode : Type :=
@@ -233,7 +271,8 @@ Inductive snode : Type :=
 | SUnique (x : snode)
 | SJoin (x y : snode)
 | SCross (x y : snode)
-| SAntiJoin (x : snode) (neg : list val).          (* anti_join with a Bounded (source_iter) side *)
+| SAntiJoin (x : snode) (neg : list val)           (* anti_join with a Bounded (source_iter) side *)
+| SGen (init : val) (f : val -> val -> val * gen) (x : snode).   (* Stream::generator: scan + flat_map *)
 
 Inductive anode : Type :=
 | AFold (init : val) (acc : val -> val -> val) (x : snode)      (* Singleton *)
@@ -246,7 +285,7 @@ Inductive anode : Type :=
 Fixpoint ord (n : snode) : bool :=
   match n with
   | SSrc _ | SIter _ => true
-  | SMap _ x | SFilter _ x | SFilterMap _ x | SInspect x | SUnique x | SAntiJoin x _ => ord x
+  | SMap _ x | SFilter _ x | SFilterMap _ x | SInspect x | SUnique x | SAntiJoin x _ | SGen _ _ x => ord x
   | SFlatMap o _ x => o && ord x
   | SWeaken _ | SUnion _ _ | SJoin _ _ | SCross _ _ => false
   | SEnumerate _ => true
@@ -272,7 +311,7 @@ Fixpoint wf_s (n : snode) : Prop :=
   | SSrc _ | SIter _ => True
   | SMap _ x | SFilter _ x | SFilterMap _ x | SInspect x | SWeaken x | SUnique x
   | SAntiJoin x _ | SFlatMap _ _ x => wf_s x
-  | SEnumerate x => ord x = true /\ wf_s x
+  | SEnumerate x | SGen _ _ x => ord x = true /\ wf_s x
   | SUnion x y | SJoin x y | SCross x y => wf_s x /\ wf_s y
   end.
 Fixpoint wf_a (a : anode) : Prop :=
@@ -303,6 +342,7 @@ Fixpoint den_s (n : snode) (e : env) : list val :=
   | SJoin x y => join (den_s x e) (den_s y e)
   | SCross x y => cross (den_s x e) (den_s y e)
   | SAntiJoin x neg => anti neg (den_s x e)
+  | SGen init f x => gen_list f init (den_s x e)
   end.
 
 Fixpoint den_a (a : anode) (e : env) : list val :=
@@ -339,6 +379,7 @@ Fixpoint run_s (n : snode) (bs : list env) : list (list val) :=
   | SCross x y => static_pairs cmatch (run_s x bs) (run_s y bs)
   | SAntiJoin x neg =>
       op_run LStatic [] anti_step (combine (run_s x bs) (first_tick neg bs))
+  | SGen init f x => op_run LStatic GInit (run_items (gen_istep init f)) (run_s x bs)
   end.
 
 Fixpoint run_a (a : anode) (bs : list env) : list (list val) :=
@@ -371,6 +412,7 @@ Fixpoint emit_s (n : snode) : list string :=
   | SCross x y => "map" :: "map" :: "join_multiset<'static,'static>" :: "multiset_delta" :: "map"
                   :: emit_s x ++ emit_s y
   | SAntiJoin x _ => "anti_join<'tick,'static>" :: "source_iter" :: emit_s x
+  | SGen _ _ x => "scan<'static>" :: "flat_map" :: emit_s x
   end.
 Fixpoint emit_a (a : anode) : list string :=
   match a with
